@@ -11,7 +11,7 @@ from ..vloop import RES
 PID = "C15"
 RULE = (
     "exhaustive: every sequence of bounded length over {queue for multicast / for a peer / with the ids of the previous entry, burst of 17, announcer stop, start} x timing prefixes relative to the collector timer; random: cases = sequences of queue_send requests with uniquely tagged entries (offer, stop-offer, subscribe-ack, nack) for "
-    "the multicast group and up to 3 unicast peers, bursts of up to 40 entries, steps timed by delays or relative to the "
+    "the multicast group and up to 3 unicast peers, bursts of up to 300 entries, steps timed by delays or relative to the "
     "pending collector timers (-4RES, -RES/4, +RES/4, +4RES, halfway) or inside one iteration; collection timeout from "
     "{0, 0.005, 0.05}; optionally two running instances whose own offers share the queues and an announcer.stop()/start() "
     "in the middle; all queue_send calls (the library's own included) are seen through a record-and-forward wrapper and "
@@ -42,7 +42,7 @@ def _step(draw):
         s["kind"] = draw(st.sampled_from(["offer", "stop", "ack", "nack"]))
         s["re"] = draw(st.sampled_from([False, False, True]))   # same ids as the previous entry of that family (offer/stop, ack/nack)
         if op == "burst":
-            s["n"] = draw(st.sampled_from([2, 3, 16, 17, 40]))
+            s["n"] = draw(st.sampled_from([2, 3, 16, 17, 40, 40, 86, 100, 300]))
     return s
 
 
@@ -146,7 +146,7 @@ def run_case(case):
             if op == "q":
                 ann.queue_send(entry(s.get("kind", "offer"), s.get("re", False)), remote=DESTS[s.get("d", 0) % len(DESTS)])
             elif op == "burst":
-                nn = max(1, min(40, s.get("n", 2)))
+                nn = max(1, min(400, s.get("n", 2)))
                 if nn > 15:
                     feats["burst"] = True
                 for _ in range(nn):
